@@ -346,6 +346,21 @@ func c08Context(c *Check, P string, r *RouterRoles2) {
 				for _, v := range CallsTo(cal, "(context.Context).Value") {
 					okK := AllOrigins(unwrapIface(v.Common().Args[0]), func(o ssa.Value) bool { p, ok := o.(*ssa.Parameter); return ok && p.Parent() == cal })
 					c.Report(okK, P+".O3", "ACCESSOR-HELPER", cal, v.Pos(), "ctx.Value(key)", "the shared accessor helper looks up the key it is given")
+					// what it answers is the stored string, or "" when there is none — never a rendering of "no value"
+					for i, rr := range Returns(cal) {
+						okV := AllOrigins(rr.Results[0], func(o ssa.Value) bool {
+							if s, isS := ConstString(o); isS && s == "" {
+								return true
+							}
+							e, isE := o.(*ssa.Extract)
+							if !isE || e.Index != 0 {
+								return false
+							}
+							ta, isTA := e.Tuple.(*ssa.TypeAssert)
+							return isTA && ta.CommaOk && ta.AssertedType.String() == "string" && AllOrigins(ta.X, func(x ssa.Value) bool { return x == CallValue(v) })
+						})
+						c.Report(okV, P+".O3", "ACCESSOR-VALUE", cal, rr.Pos(), fmt.Sprintf("accessor helper return#%d", i), `the accessors answer the string stored under the key, and "" when nothing (or something that is not a string) is stored`)
+					}
 				}
 			}
 		}
@@ -356,6 +371,10 @@ func c08Context(c *Check, P string, r *RouterRoles2) {
 	written := map[string]*types.Var{}
 	for _, wv := range CallsTo(ctxFn, nWithValue) {
 		k := constKey(wv.Common().Args[1])
+		if mi, isMI := wv.Common().Args[1].(*ssa.MakeInterface); isMI {
+			nt, isNamed := mi.X.Type().(*types.Named)
+			c.Report(isNamed && nt.Obj().Pkg() == ctxFn.Pkg.Pkg && !nt.Obj().Exported(), P+".O3", "CONTEXT-KEY-TYPE", ctxFn, wv.Pos(), "WithValue key "+k, "the handler values are stored under keys of a private defined type of package message (a plain string — or an alias of it — would collide with keys user code puts into the message context)")
+		}
 		f := LoadedField(firstOrigin(unwrapIface(wv.Common().Args[2])))
 		if k != "" && f != nil {
 			written[k] = f
@@ -562,6 +581,27 @@ func c09All(c *Check, P string, r *RouterRoles2) {
 		}
 	}
 	c.Floor(P+".O1", "stores to the registration lists", nst, 4)
+	// registration is unconditional: every exit of a function that extends a list has extended it
+	for _, f := range lists {
+		for _, fn := range r.Funcs {
+			if allocatesNamed(fn, r.R) || fn.Object() == nil || !fn.Object().Exported() {
+				continue
+			}
+			sts := FieldStores(fn, f)
+			if len(sts) == 0 {
+				continue
+			}
+			cut := NewCut()
+			for _, st := range sts {
+				cut.AddInstrs(st)
+			}
+			re := ReachEntry(fn, cut)
+			for i, ret := range Returns(fn) {
+				c.Report(!re[ret], P+".O1", "REGISTRATION-UNCONDITIONAL", fn, ret.Pos(), fmt.Sprintf("%s return#%d", roleName(f, mwF, pdF, sdF), i), "whatever the router's state, what is passed to the registration call is appended (handlers added and started later must get it)")
+			}
+		}
+	}
+	c17ForwarderMiddlewares(c, P+".O3")
 	// registration records: struct literals with IsRouterLevel / HandlerName
 	nrec := 0
 	for _, fn := range r.Funcs {
@@ -898,8 +938,19 @@ func c10Lifecycle(c *Check, P string, r *RouterRoles2) {
 			e, ok := x.(*ssa.Extract)
 			return ok && e.Tuple == CallValue(sub) && e.Index == 1
 		}
+		notRunning := []Edge{}
+		for _, t := range Tests(RH) {
+			if f := LoadedField(firstOrigin(t.X)); f != nil && f.Type().String() == "bool" && t.Op == token.ILLEGAL && t.If.Block() == RH.Blocks[0] {
+				notRunning = append(notRunning, t.False, t.True) // the entry guard on the is-running flag (either polarity)
+			}
+		}
 		for i, ret := range Returns(RH) {
-			if RetNil(ret, 0) || !ReachAfter(next, nil)[ret] {
+			if RetNil(ret, 0) {
+				continue
+			}
+			if !ReachAfter(next, nil)[ret] {
+				// before the loop: only the "router is not running" guard may refuse
+				c.Report(len(notRunning) > 0 && isEntryGuardReturn(RH, ret), P+".O1", "RUNHANDLERS-FAILS-ONLY-ON-START-FAILURE", RH, ret.Pos(), fmt.Sprintf("return#%d", i), "before its loop RunHandlers refuses only a router that is not running (not a cancelled context: Run would return an error instead of closing the router and returning nil)")
 				continue
 			}
 			os := Origins(ret.Results[0])
@@ -1188,6 +1239,14 @@ func c10Lifecycle(c *Check, P string, r *RouterRoles2) {
 			nAdd++
 			n, isC := IntConst(a.Common().Args[1])
 			c.Report(isC && n == 1 && !InLoop(a), P+".O5", "HANDLER-COUNTED", r.AddHandler, a.Pos(), "handlersWg.Add", "each added handler is counted once in the handler-loop wait group")
+			after := ReachAfter(a, nil)
+			okNoPanic := true
+			for _, pn := range Panics(r.AddHandler) {
+				if after[pn] {
+					okNoPanic = false
+				}
+			}
+			c.Report(okNoPanic, P+".O5", "HANDLER-COUNTED-ONLY-IF-ADDED", r.AddHandler, a.Pos(), "handlersWg.Add", "the handler is counted only when it is really added: no panic (duplicate name) is reachable after the Add — a recovered panic would leave the wait group one too high and the router would never close itself")
 		}
 	}
 	c.Floor(P+".O5", "handler-loop wait group Add in AddHandler", nAdd, 1)
@@ -1281,4 +1340,11 @@ func (r *RouterRoles2) isFieldOrItsValue(f *types.Var) func(ssa.Value) bool {
 		}
 		return false
 	}
+}
+
+// isEntryGuardReturn: ret lies in a block entered directly from the function's
+// entry block (the single guard tested first).
+func isEntryGuardReturn(fn *ssa.Function, ret *ssa.Return) bool {
+	b := ret.Block()
+	return len(b.Preds) == 1 && b.Preds[0] == fn.Blocks[0]
 }
